@@ -21,9 +21,13 @@ Definition BQ (t : N) (st : strategy) (s e : option Z) (api : bobs) (cli : optio
   {| b_target := t; b_strategy := st; b_start := s; b_end := e; b_api := api; b_cli := cli |}.
 
 Record case := { c_entries : list entry; c_db : list pline; c_exact : bool; c_obs : lobs;
-                 c_queries : list bquery }.
+                 c_queries : list bquery;
+                 (* `okane balance -X T ...` with T unknown to ledger and price DB *)
+                 c_unknown : list uobs }.
 Definition C (es : list entry) (db : list pline) (exact : bool) (o : lobs) (qs : list bquery) : case :=
-  {| c_entries := es; c_db := db; c_exact := exact; c_obs := o; c_queries := qs |}.
+  {| c_entries := es; c_db := db; c_exact := exact; c_obs := o; c_queries := qs; c_unknown := [] |}.
+Definition CU (es : list entry) (db : list pline) (exact : bool) (o : lobs) (qs : list bquery) (us : list uobs) : case :=
+  {| c_entries := es; c_db := db; c_exact := exact; c_obs := o; c_queries := qs; c_unknown := us |}.
 
 (* ---- spec side ---- *)
 Definition nz (a : amount) : amount := a_remove_zeros a.
@@ -151,7 +155,8 @@ Definition classify (c : case) : N :=
       if negb (obs_agrees (c_obs c) m) then 1%N else
       let evs := s_events s in
       let recs := repository evs (c_db c) in
-      fold_left (fun acc q => worst acc (classify_query (c_exact c) s evs (c_db c) recs ts q)) (c_queries c) 0%N
+      worst (classify_unknowns (c_unknown c))
+            (fold_left (fun acc q => worst acc (classify_query (c_exact c) s evs (c_db c) recs ts q)) (c_queries c) 0%N)
   | (Ok _, _), _ => 1%N              (* the implementation rejected a ledger the model accepts *)
   | _, LOk _ _ => 1%N
   | _, _ => 0%N                      (* rejected by both: nothing to convert *)
